@@ -101,6 +101,17 @@ func runLabel(c *core.Ctx) {
 				continue
 			}
 			good := labelFromRequest(c, fn, call.Call.Args[0], want, 0)
+			// the merged OK built in the state's own method from the replies filed under a key: labelled
+			// with that key (SetMsg files a child's reply under its EventID, which is the request's)
+			if !good && recvTypeName(fn) == "mergeHandlerSessionOKState" && short == "NewServerOKMsg" {
+				if pr, isP := call.Call.Args[0].(*ssa.Parameter); isP && pr.Parent() == fn {
+					an.Instrs(fn, func(in ssa.Instruction) {
+						if lk, isLk := in.(*ssa.Lookup); isLk && lk.Index == ssa.Value(pr) && an.PathOf(lk.X) == "recv.s" {
+							good = true
+						}
+					})
+				}
+			}
 			c.Check(good, props, fname(c, fn), construct, P.Pos(call.Pos()), short+" labelled with "+ap,
 				short+" is labelled with "+ap+", want the request's "+want+": the client cannot match the reply to its request")
 		}
